@@ -75,6 +75,7 @@ def judge(c: Campaign, spec: dict[str, Any], run: Run, desc: Any, extra=()) -> N
     case = {"spec": spec, "schedule": desc}
     rearmed_reader = False
     multi_producer = False
+    jump_ctx_cases = [0]
 
     def outputs_at(a: str, t_step: int) -> dict[str, Any]:
         rearm = max([st_ for st_, r, _o, new, _w in changes if r == a and new == "NOT_STARTED" and st_ < t_step] + [-1])
@@ -101,6 +102,15 @@ def judge(c: Campaign, spec: dict[str, Any], run: Run, desc: Any, extra=()) -> N
         anc = ancestors(spec, s_ref)
         anc_out = {a: outputs_at(a, t_start) for a in anc}
         own = {k: v for k, v in s.get("ctx", {}).items() if k.startswith("k_")}
+        # values handed to this stage with the jump that re-armed it are set on the stage itself ("a value set on the stage itself wins")
+        jc_seen = e["seen"].get("_jump_count", 0)
+        if was_rearmed and jc_seen:
+            for src in spec["stages"]:
+                for t_ in src["tasks"]:
+                    if t_.get("b") == "jump" and t_.get("to") == s_ref and t_.get("jctx"):
+                        for k_, v_ in t_["jctx"].items():
+                            own[k_] = f"{v_}@{jc_seen - 1}"
+                            jump_ctx_cases[0] += 1
         reducers = s.get("reducers", {})
         seen = {k: v for k, v in e["seen"].items() if k.startswith("k_")}
         # keys written into the stage's own context by its earlier tasks are not part of this property
@@ -165,7 +175,7 @@ def judge(c: Campaign, spec: dict[str, Any], run: Run, desc: Any, extra=()) -> N
                             f"{s_ref}.t{e['task']} saw {k}={seen[k]!r}; maximal producer(s) {maximal} currently provide {sorted(allowed)}")
     nontrivial = multi_producer or rearmed_reader or any(s.get("reducers") for s in spec["stages"])
     c.case(("c16", spec, desc), nontrivial, [f"feat:{f}" for f in features(spec)] + list(extra)
-           + (["multi-producer-path"] if multi_producer else []) + (["rearmed-reader"] if rearmed_reader else []),
+           + (["multi-producer-path"] if multi_producer else []) + (["rearmed-reader"] if rearmed_reader else []) + (["jump-context"] if jump_ctx_cases[0] else []),
            sample={"spec": spec, "schedule": desc, "last_execution_saw": {k: v for k, v in led[-1]["seen"].items() if k.startswith("k_")} if led else {}}
            if nontrivial else None)
 
@@ -227,11 +237,28 @@ def loop_data_spec(shape: str, j: int) -> dict[str, Any]:
     return make_loop(shape, j, None)
 
 
+@st.composite
+def loop_ctx_spec(draw) -> dict[str, Any]:
+    """u -> t -> m -> r (r jumps back to t): values handed to the target with the jump (jump context) that collide with an
+    ancestor's key or are new, and a stage inside the loop keeping an own list under a key its re-armed ancestor also emits."""
+    j = draw(st.integers(1, 2))
+    jctx = draw(st.sampled_from([None, {"k_0": "jumpctx"}, {"k_1": "jumpctx"}, {"k_0": "jumpctx", "k_1": "jumpctx2"}]))
+    t_emit = [emit("k_2", "iter")] + ([emit("k_3", "iter", list=True)] if draw(st.booleans()) else [])
+    m = stage("m", ["t"], [ok(emit("k_1", "echo", src="k_2"))])
+    if draw(st.booleans()):
+        m["ctx"] = {"k_3": ["own-m"]}
+    jt: dict[str, Any] = {"b": "jump", "to": "t", "j": j, "emit": []}
+    if jctx:
+        jt["jctx"] = jctx
+    return {"name": "loop-ctx", "stages": [stage("u", [], [ok(emit("k_0"))]), stage("t", ["u"], [{"b": "ok", "emit": t_emit}]), m,
+                                           stage("r", ["m"], [jt]), stage("z", ["r"], [ok()])]}
+
+
 def shard(prop: str, tier: str, seed: int, n: int) -> dict[str, Any]:
     c = Campaign(prop, tier, seed, LEVEL)
     spec_st = st.one_of(data_dag(), data_dag(), reducer_spec(),
                         st.builds(loop_data_spec, st.sampled_from(["cycle2", "cycle3", "cycle4", "side", "mid_target", "nested", "self"]),
-                                  st.integers(1, 2)))
+                                  st.integers(1, 2)), loop_ctx_spec())
 
     @hseed(seed)
     @settings(max_examples=n, database=None, deadline=None, derandomize=False, suppress_health_check=list(HealthCheck),
@@ -336,7 +363,7 @@ def run(c: Campaign, jobs: int) -> None:
         "integer reducer inputs (no float rounding); 'merge', 'first', 'last' are order-sensitive by definition and not judged",
         "single worker thread; SQLite only",
     ]
-    for cls in ("multi-producer-path", "rearmed-reader", "feat:reducers", "pure:sum", "pure:collect", "feat:continue-on-failure"):
+    for cls in ("multi-producer-path", "rearmed-reader", "jump-context", "feat:reducers", "pure:sum", "pure:collect", "feat:continue-on-failure"):
         if c.classes.get(cls, 0) == 0:
             c.harness_error(f"generator starvation: class {cls} never produced")
 
